@@ -1,12 +1,13 @@
 /-
-  "Nothing is released beyond the stream's credit" for SETTINGS frames that repeat
-  SETTINGS_INITIAL_WINDOW_SIZE (`Lemmas/H2Credit.lean` covers frames that name it at most once).
-  The relay scans its queues after EVERY value (`updateInitialWindowSize`), so a frame released
-  under an earlier value stays released under the later ones.  When no value of the frame exceeds
-  the LAST one (the one in force afterwards) every release is covered by it; otherwise it need not
-  be (`c09_repeated_settings_larger_intermediate_witness`, F51).  Applying only the last value of
-  every identifier before the queues are scanned (`applySettingsLastOnly`) covers every frame.
-  Core-only.
+  "Nothing is released beyond the stream's credit" for lists of settings that repeat
+  SETTINGS_INITIAL_WINDOW_SIZE, applied value by value (`applyEach`: the loop the relay ran over a
+  whole SETTINGS frame before the repair of F51; `Lemmas/H2Credit.lean` covers lists that name the
+  identifier at most once, which is all `relay.applySettings` feeds it now).  Scanning the queues
+  after EVERY value means a frame released under an earlier value stays released under the later
+  ones.  When no value of the list exceeds the LAST one (the one in force afterwards) every release
+  is covered by it; otherwise it need not be (`c09_settings_each_value_applied_witness`).  Applying
+  only the last value of every identifier before the queues are scanned (`applySettingsLastOnly`)
+  covers every frame.  Core-only.
 -/
 import FwdVerif.Lemmas.H2Credit
 import FwdVerif.Lemmas.H2Settings
@@ -152,15 +153,15 @@ theorem UpTo.setInitWin {V : Int} {d : Dir α} {L : Ledger} (h : Book d L) (orde
 
 /-- **repeated SETTINGS_INITIAL_WINDOW_SIZE, none above `V`**: every frame released while the list
     is processed belongs to a buffer whose window is at least `initWin − V` afterwards -/
-theorem UpTo.applySettings {V : Int} {o : Dir α} {L : Ledger} (h : Book o L) (ord : Nat → List Nat) (k : Nat)
+theorem UpTo.applyEach {V : Int} {o : Dir α} {L : Ledger} (h : Book o L) (ord : Nat → List Nat) (k : Nat)
     (kvs : List (Nat × Nat)) (hc : initAllLe V kvs) :
-    UpTo V (applySettings o ord k kvs).1 (applySettings o ord k kvs).2 ∧ KeepsUpTo V o (applySettings o ord k kvs).1 := by
+    UpTo V (applyEach o ord k kvs).1 (applyEach o ord k kvs).2 ∧ KeepsUpTo V o (applyEach o ord k kvs).1 := by
   induction kvs generalizing o L k with
   | nil => exact ⟨UpTo.nil V o, KeepsUpTo.refl V o⟩
   | cons kv rest ih =>
     obtain ⟨id, v⟩ := kv
     simp only [initAllLe] at hc
-    simp only [H2.applySettings]
+    simp only [H2.applyEach]
     split
     · rename_i hid
       have h1 := UpTo.setInitWin (V := V) h (ord k) v (hc.1 hid)
@@ -176,11 +177,11 @@ theorem UpTo.applySettings {V : Int} {o : Dir α} {L : Ledger} (h : Book o L) (o
 
 /-- … in particular when the LAST value is the largest: every release is within the credit in force
     after the frame -/
-theorem Released.applySettings_lastMax {o : Dir α} {L : Ledger} (h : Book o L) (ord : Nat → List Nat) (k : Nat)
+theorem Released.applyEach_lastMax {o : Dir α} {L : Ledger} (h : Book o L) (ord : Nat → List Nat) (k : Nat)
     (kvs : List (Nat × Nat)) (hc : initAllLe (lastOfInt settingInitialWindowSize o.initWin kvs) kvs) :
-    Released (H2.applySettings o ord k kvs).1 (H2.applySettings o ord k kvs).2 := by
-  have := (UpTo.applySettings h ord k kvs hc).1
-  rw [← (applySettings_cfg o ord k kvs).1] at this
+    Released (H2.applyEach o ord k kvs).1 (H2.applyEach o ord k kvs).2 := by
+  have := (UpTo.applyEach h ord k kvs hc).1
+  rw [← (applyEach_cfg o ord k kvs).1] at this
   exact this.released
 
 theorem initAllLe_absent (V : Int) (t : List (Nat × Nat)) (h : settingInitialWindowSize ∉ t.map (·.1)) :
@@ -215,7 +216,7 @@ theorem initAllLe_of_nodup (d : Int) (kvs : List (Nat × Nat)) (h : (kvs.map (·
 theorem Released.applySettingsLastOnly {o : Dir α} {L : Ledger} (h : Book o L) (ord : Nat → List Nat)
     (kvs : List (Nat × Nat)) :
     Released (H2.applySettingsLastOnly o ord kvs).1 (H2.applySettingsLastOnly o ord kvs).2 :=
-  Released.applySettings_lastMax h ord 0 (lastOcc kvs) (initAllLe_of_nodup _ _ (lastOcc_nodup kvs))
+  Released.applyEach_lastMax h ord 0 (lastOcc kvs) (initAllLe_of_nodup _ _ (lastOcc_nodup kvs))
 
 end H2
 end FwdVerif
